@@ -3,7 +3,7 @@
    gives the model's answer `ask ptab s (<query>)` (Model/Engine.v) for all states and arguments.
    Statements only; the proofs are in PinChecks/PcQueryGen.v (lemmas in Proofs/QueryP.v).
    ans_rules / ans_bag / ans_names / ans_nameset / ans_bool (option result -> answer, None = AnsPanic),
-   set_result, iu_candidates, enf_panics, no_candidate_panics and the example states are defined there;
+   set_result, iu_candidates, enf_panics and the example states are defined there;
    q_ord_ok (every iteration order of a hash container) and opt_perm in Proofs/QueryP.v;
    answer_equiv (AnsNameSet as sets, AnsRuleBag as multisets, the rest equal) in Proofs/C18P.v. *)
 From CV Require Import Model.Base Model.RoleGraph Model.Expr Model.Enforce Model.Engine Model.SpecC13.
@@ -195,15 +195,10 @@ Print Assumptions querygen_get_implicit_permissions_for_user_spec.
 
 Theorem querygen_get_implicit_users_for_permission_spec :
   forall ptab ord s perm, q_ord_ok ord ->
-  match iu_candidates s with
-  | None => genq_get_implicit_users_for_permission ptab ord s perm = None /\
-            implicit_users ptab s perm = None
-  | Some cands =>
-    if existsb (enf_panics ptab s perm) cands
-    then genq_get_implicit_users_for_permission ptab ord s perm = None
-    else exists l l', implicit_users ptab s perm = Some l /\
-                      genq_get_implicit_users_for_permission ptab ord s perm = Some l' /\
-                      NoDup l' /\ forall y, In y l' <-> In y l
+  match implicit_users ptab s perm with
+  | None => genq_get_implicit_users_for_permission ptab ord s perm = None
+  | Some l => exists l', genq_get_implicit_users_for_permission ptab ord s perm = Some l' /\
+                         NoDup l' /\ forall y, In y l' <-> In y l
   end.
 Proof. exact genq_get_implicit_users_for_permission_spec. Qed.
 Print Assumptions querygen_get_implicit_users_for_permission_spec.
@@ -253,26 +248,21 @@ Theorem querygen_get_implicit_permissions_for_user_ok :
 Proof. exact genq_get_implicit_permissions_for_user_ok. Qed.
 Print Assumptions querygen_get_implicit_permissions_for_user_ok.
 
-Theorem querygen_get_implicit_users_for_permission_partial :
-  forall ptab ord s perm,
-  q_ord_ok ord -> no_candidate_panics ptab s perm ->
+Theorem querygen_get_implicit_users_for_permission_ok :
+  forall ptab ord s perm, q_ord_ok ord ->
   answer_equiv (ans_nameset (genq_get_implicit_users_for_permission ptab ord s perm))
                (ask ptab s (QImplicitUsers perm)).
-Proof. exact genq_get_implicit_users_for_permission_partial. Qed.
-Print Assumptions querygen_get_implicit_users_for_permission_partial.
+Proof. exact genq_get_implicit_users_for_permission_ok. Qed.
+Print Assumptions querygen_get_implicit_users_for_permission_ok.
 
-Theorem querygen_get_implicit_users_full_refuted :
-  ~ genq_get_implicit_users_for_permission_full.
-Proof. exact get_implicit_users_full_refuted. Qed.
-Print Assumptions querygen_get_implicit_users_full_refuted.
-
-(* the full statement for get_implicit_users_for_permission (false: querygen_get_implicit_users_full_refuted) *)
+(* the state on which source and model used to differ (enforce panics on the candidate alice):
+   both now answer "panic" *)
 Example querygen_implicit_users_witness :
   iu_candidates bad1 = Some [T "alice"] /\
   enforce ptab0 bad1 (map VStr [T "alice"; T "data"; T "read"]) = Panic /\
-  ask ptab0 bad1 (QImplicitUsers [T "data"; T "read"]) = AnsNameSet [] /\
+  ask ptab0 bad1 (QImplicitUsers [T "data"; T "read"]) = AnsPanic /\
   genq_get_implicit_users_for_permission ptab0 (fun l => l) bad1 [T "data"; T "read"] = None.
-Proof. exact bad1_disagrees. Qed.
+Proof. exact bad1_both_panic. Qed.
 
 (* the hypotheses are satisfiable on a concrete state (ex1 of Proofs/C13P.v: a diamond with a cycle) *)
 Example querygen_example_ord : q_ord_ok (@rev text).
@@ -281,8 +271,6 @@ Example querygen_example_wf : wf (f_rm (e_fs ex1)).
 Proof. exact ex_wf. Qed.
 Example querygen_example_fuel : S (S (graph_size (f_rm (e_fs ex1)) None)) <= 6.
 Proof. exact ex_fuel. Qed.
-Example querygen_example_no_panics : no_candidate_panics ptab0 ex1 [T "data"; T "read"].
-Proof. exact ex_no_panics. Qed.
 (* wf is needed for the equality with the MODEL (whose loop has its own fuel) *)
 Example querygen_wf_needed :
   implicit_roles odd_state (T "a") None = [T "b"; T "c"; T "e"; T "z"] /\
